@@ -831,23 +831,36 @@ Section Envelope.
     end.
 
   Definition rpc_go (sigs : list dsig) (t name params : jv) : sres :=
-    match num_of t with
-    | Some 0 =>
-        match (match name with
-               | JStr s => Some s
-               | JBytes b => utf8_dec b
-               | _ => None
-               end) with
-        | None => SNotFound
-        | Some n =>
-            match find_sig sigs n with
+    (* msgname_or_error.decode(default_string_encoding) comes first *)
+    match (match name with
+           | JStr s => Ok (Some s)
+           | JBytes b => match utf8_dec b with Some n => Ok (Some n) | None => Crash UnicodeError end
+           | _ => Ok None
+           end) with
+    | Crash e => SCrash e
+    | VFault => SInvalid
+    | Ok on =>
+        match num_of t with
+        | Some 0 =>
+            match on with
             | None => SNotFound
-            | Some s => args_of s (d2o c (ext_universe U s) fuel (DRef (in_cid U)) params)
+            | Some n =>
+                match find_sig sigs n with
+                | None => SNotFound
+                | Some s => args_of s (d2o c (ext_universe U s) fuel (DRef (in_cid U)) params)
+                end
+            end
+        | Some 1 => SCrash AssertionError      (* assert message == RESPONSE *)
+        | Some 2 => SCrash OtherExn            (* NotImplementedError *)
+        | _ =>
+            (* MessagePackDecodeError("Unknown message type %r" % msgtype): a tuple is taken as
+               the argument list of the format *)
+            match t with
+            | JList [_] => SInvalid
+            | JList _ => SCrash TypeError
+            | _ => SInvalid
             end
         end
-    | Some 1 => SCrash AssertionError      (* assert message == RESPONSE *)
-    | Some 2 => SCrash OtherExn            (* NotImplementedError *)
-    | _ => SInvalid                        (* MessagePackDecodeError (a Client fault) *)
     end.
 
   Definition rpc_request (sigs : list dsig) (req : jv) : sres :=
